@@ -399,6 +399,7 @@ func H_Conc() {
 	for _, in := range kit.Log {
 		if disposable(in) {
 			vrt.Assert(in.Closed >= 1, "C10.overlap_leak", "instance of slot", in.Slot, "constructed under concurrency was never closed")
+			vrt.Assert(in.Closed >= 1, "C12.concurrent_not_closed", "instance of slot", in.Slot, "constructed under concurrency was skipped by every Close (and its failure could never be reported)")
 			vrt.Assert(in.Closed <= 1, "C12.concurrent_double_close", "instance of slot", in.Slot, "closed", in.Closed, "times")
 		}
 	}
